@@ -57,8 +57,35 @@ fn refused_fake(x: u32) -> u32 {
 
 static INSIDE: AtomicUsize = AtomicUsize::new(0);
 
+/// the holder lets go by a scope exit whose restore itself panics (the OS refuses to make the page writable
+/// again: an unloaded plugin, a policy change): the turn must still pass to a waiting thread
+fn failed_restore_handover(out: &mut impl Write) {
+    let (text, code, sig) = crate::hist::in_child_deadline(60, move |w| {
+        let mut inj = InjectorPP::new();
+        inj.when_called(shadow::func!(fn (shared)() -> u32)).will_execute_raw(fake_ptr(0));
+        let faked = shared() == 1;
+        shim::fail_next_mprotects(1000);
+        let r = quiet_catch(std::panic::AssertUnwindSafe(move || drop(inj)));
+        shim::fail_next_mprotects(0);
+        let (tx, rx) = std::sync::mpsc::channel();
+        std::thread::spawn(move || {
+            let p = InjectorPP::prevent();
+            let _ = tx.send(true);
+            drop(p);
+        });
+        let handover = matches!(rx.recv_timeout(std::time::Duration::from_secs(5)), Ok(true));
+        writeln!(w, "thrq 1 | faked={} restorepanic={} handover={}", faked as u8, r.is_err() as u8, handover as u8).unwrap();
+    });
+    if sig != 0 || code != 0 {
+        writeln!(out, "thrq 1 | CRASH sig={} code={}", sig, code).unwrap();
+    } else {
+        out.write_all(text.as_bytes()).unwrap();
+    }
+}
+
 pub fn run(a: &Args, out: &mut impl Write) {
     silence_panics();
+    failed_restore_handover(out);
     let iters = a.n as usize;
     for &t in &[2usize, 4, 8, 16] {
       let seed0 = a.seed;
